@@ -89,11 +89,31 @@ def grid(name):
         out.append((dict(change_detector=cd.MovingWindow(bandwidth=2, threshold_scale=0.1), stat=np.median, stat_lower=0.5, stat_upper=3.5), {}, 4))
         out.append((dict(change_detector=cd.SeededBinarySegmentation(threshold_scale=0.3, min_segment_length=1, max_interval_length=8),
                          stat=np.max, stat_lower=0.0, stat_upper=3.0), {}, 2))
+    # larger parameters, run on medium-length series only
+    L = dict(long=True)
+    if name == "PELT":
+        out.append((dict(cost=L2Cost(), penalty_scale=0.5, min_segment_length=5), dict(msl=5, **L), 10))
+        out.append((dict(cost=GaussianVarCost(), penalty_scale=0.2, min_segment_length=4), dict(msl=4, **L), 8))
+    elif name == "SeededBinarySegmentation":
+        out.append((dict(threshold_scale=0.5, min_segment_length=4, max_interval_length=12, growth_factor=1.5), dict(msl=4, **L), 8))
+        out.append((dict(threshold_scale=0.5, min_segment_length=5, max_interval_length=10, growth_factor=2.0), dict(msl=5, **L), 10))
+    elif name == "MovingWindow":
+        out.append((dict(bandwidth=5, threshold_scale=0.5), dict(band=5, **L), 10))
+        out.append((dict(bandwidth=6, threshold_scale=0.5, min_detection_interval=2), dict(band=6, **L), 12))
+    elif name in ("CAPA", "MVCAPA"):
+        out.append((dict(collective_penalty_scale=0.5, point_penalty_scale=0.5, min_segment_length=4, max_segment_length=6), dict(msl=4, M=6, **L), 4))
+        out.append((dict(collective_penalty_scale=0.3, point_penalty_scale=0.3, min_segment_length=5, max_segment_length=100), dict(msl=5, M=100, **L), 5))
+    elif name == "CircularBinarySegmentation":
+        out.append((dict(threshold_scale=0.3, min_segment_length=4, max_interval_length=12, growth_factor=1.5), dict(msl=4, cbs=True, **L), 8))
+    elif name == "StatThresholdAnomaliser":
+        import skchange.change_detectors as cd2
+
+        out.append((dict(change_detector=cd2.PELT(penalty_scale=0.5, min_segment_length=4), stat_lower=1.0, stat_upper=2.5), dict(**L), 8))
     return out
 
 
 def check_output(acc, case, key, name, y, n, p, inv):
-    inv = {k: v for k, v in inv.items() if k != "minp"}
+    inv = {k: v for k, v in inv.items() if k not in ("minp", "long")}
     probs = dets.wellformed(y, dets.kind_of(name), n, p, **inv)
     if probs:
         acc.violation("malformed-output", case, f"{name}: {probs[:3]}", dict(key, what=probs[0].split(" ")[0]))
@@ -124,8 +144,22 @@ def check_data_case(acc, name, gi, X):
         acc.violation("raised", case, f"{name}({case['params']}) on n={n}, p={p}: {type(e).__name__}: {e}", dict(key, exc=type(e).__name__))
 
 
-def data_matrices(tier, seed, name, minlen, minp):
+def data_matrices(tier, seed, name, minlen, minp, long=False):
     q = tier == "quick"
+    if long:
+        for n in (12, 16) if q else (12, 16, 20, 24):
+            if n < minlen:
+                continue
+            for cps, xs in util.structured_series(n, 2, (0.0, 3.0)):
+                yield np.array(xs, dtype=float).reshape(-1, 1)
+            for cps, xs in util.structured_series(n, 4, (0.0, 3.0)):
+                if len(cps) in (3, 4) and (cps[0] + 2 * cps[1] + cps[-1]) % 5 == 0:
+                    x = np.array(xs, dtype=float).reshape(-1, 1)
+                    x[(cps[1] + cps[2]) // 2, 0] += 6.0
+                    yield x
+            for cps, xs in util.structured_series(n, 1, (0.0, 3.0)):
+                yield np.array(util.three_columns(xs), dtype=float)
+        return
     a, b = util.seed_affine(seed)
     top2 = 8 if q else 10
     top3 = 5 if q else 7
@@ -243,6 +277,7 @@ def bounds(tier, seed):
         "grid_sizes": {name: len(grid(name)) for name in dets.DETECTORS},
         "grid": {name: [{k: repr(v) for k, v in g[0].items()} for g in grid(name)][:6] for name in dets.DETECTORS},
         "data": "all (0,4) series from the minimum length to 8 (quick)/10; (0,1,3) and seed-affine image to 5/7; all 2-column (0,4) matrices to n=4/6; MVCAPA also 3- and 4-column to n=3/4",
+        "long": "extra grid cells with min_segment_length 4-5, bandwidth 5-6 (mdi 2), max lengths 6-12 on piecewise-constant textured series n in (12,16) quick / up to 24 (all placements of <= 2 changes, a fifth of the 3-4 change placements with a spike, 3-column variants)",
         "tables": "C02 full tables n<=6 p=1; C03 full tables n<=4; C07 greedy family; C08 detect family (<=5 positions); C09 greedy family -- invariant only",
     }
 
@@ -252,7 +287,7 @@ def run_shard(shard):
     if shard[0] == "data":
         _, tier, seed, name, gi = shard
         kw, inv, minlen = grid(name)[gi]
-        for X in data_matrices(tier, seed, name, minlen, inv.get("minp", 1)):
+        for X in data_matrices(tier, seed, name, minlen, inv.get("minp", 1), inv.get("long", False)):
             check_data_case(acc, name, gi, X)
     else:
         _, tier, modname, i, k = shard
